@@ -82,6 +82,7 @@ Definition nonempty (o : option str) : option str :=
 
 Inductive obs :=
 | OErr                                            (* some exception *)
+| ORefused                                        (* the serialiser raised ResultException *)
 | OAsk (b : bool)
 | OSel (vars : list str) (rows : list prow)
 | OCells (cells : list (list str)).               (* CSV: what csv.reader returns *)
@@ -94,6 +95,7 @@ Definition dict_eqb (a b : prow) : bool :=
 Definition obs_eqb (a b : obs) : bool :=
   match a, b with
   | OErr, OErr => true
+  | ORefused, ORefused => true
   | OAsk x, OAsk y => Bool.eqb x y
   | OSel v r, OSel v' r' => list_eqb str_eqb v v' && list_eqb dict_eqb r r'
   | OCells m, OCells m' => list_eqb (list_eqb str_eqb) m m'
@@ -333,38 +335,102 @@ Definition canonical_int (s : str) : bool :=
   | c :: r => is_digit c && negb (c =? 48) && forallb is_digit r
   end.
 
-(* XMLGenerator.characters(str(val)):  if content: write(escape(content));  escape("") = "" *)
-(* SPARQLXMLWriter.write_binding; None = Exception("Unsupported RDF term") *)
-Definition xml_write_term (t : option term) : option xterm :=
-  match t with
-  | Some (IRI s) => Some {| xk := KUri; x_dt := None; x_lang := None; x_text := sax_escape s |}
-  | Some (BNode s) => Some {| xk := KBnode; x_dt := None; x_lang := None; x_text := sax_escape s |}
-  | Some (Lit lex dt lang) =>
-      (* if val.language: ... elif val.datatype: ...   (truthiness) *)
-      match nonempty lang with
-      | Some l => Some {| xk := KLiteral; x_dt := None; x_lang := Some (sax_quoteattr l); x_text := sax_escape lex |}
-      | None =>
-        match nonempty dt with
-        | Some d => Some {| xk := KLiteral; x_dt := Some (sax_quoteattr d); x_lang := None; x_text := sax_escape lex |}
-        | None => Some {| xk := KLiteral; x_dt := None; x_lang := None; x_text := sax_escape lex |}
-        end
-      end
-  | None => None
+(* the outcome of writing something: done, ResultException, or another exception *)
+Inductive wres (A : Type) := WOk (a : A) | WRefuse | WFail.
+Arguments WOk {A} a.
+Arguments WRefuse {A}.
+Arguments WFail {A}.
+
+(* writing the items of a list one after the other: the first exception ends it *)
+Fixpoint all_w {A} (l : list (wres A)) : wres (list A) :=
+  match l with
+  | [] => WOk []
+  | WOk x :: r => match all_w r with WOk r' => WOk (x :: r') | WRefuse => WRefuse | WFail => WFail end
+  | WRefuse :: _ => WRefuse
+  | WFail :: _ => WFail
   end.
 
-Definition xml_write_row (r : row) : option (list xbind) :=
-  all_some (map (fun kv => match xml_write_term (snd kv) with
-                           | Some x => Some (sax_quoteattr (fst kv), x) | None => None end) r).
+(* _check_xml_chars *)
+Definition str_xml (s : str) : bool := forallb is_xml_char s.
+
+(* str.split(c): the first piece and the following ones *)
+Fixpoint split_on (c : N) (s : str) : str * list str :=
+  match s with
+  | [] => ([], [])
+  | x :: r => let '(h, t) := split_on c r in if x =? c then ([], h :: t) else (x :: h, t)
+  end.
+
+(* SPARQLXMLWriter._characters(text), after the check: characters(part) for every piece of
+   text.split(CR), the reference &#13; written verbatim in between
+   ( characters("") writes nothing = escape("") ) *)
+Definition xml_characters (s : str) : str :=
+  let '(h, t) := split_on 13 s in
+  sax_escape h ++ flat_map (fun p => e_cr ++ sax_escape p) t.
+
+(* the strings write_binding checks for a term *)
+Definition written_strings (t : term) : list str :=
+  match t with
+  | IRI s => [s]
+  | BNode s => [s]
+  | Lit lex dt lang =>
+      match nonempty lang with
+      | Some l => [l; lex]
+      | None => match dt with Some d => [d; lex] | None => [lex] end
+      end
+  end.
+
+(* SPARQLXMLWriter.write_binding, the child element; WFail = Exception("Unsupported RDF term") *)
+Definition xml_term_elem (t : term) : xterm :=
+  match t with
+  | IRI s => {| xk := KUri; x_dt := None; x_lang := None; x_text := xml_characters s |}
+  | BNode s => {| xk := KBnode; x_dt := None; x_lang := None; x_text := xml_characters s |}
+  | Lit lex dt lang =>
+      (* if val.language: ... elif val.datatype is not None: ... *)
+      match nonempty lang with
+      | Some l => {| xk := KLiteral; x_dt := None; x_lang := Some (sax_quoteattr l); x_text := xml_characters lex |}
+      | None =>
+        match dt with
+        | Some d => {| xk := KLiteral; x_dt := Some (sax_quoteattr d); x_lang := None; x_text := xml_characters lex |}
+        | None => {| xk := KLiteral; x_dt := None; x_lang := None; x_text := xml_characters lex |}
+        end
+      end
+  end.
+
+Definition xml_write_term (t : option term) : wres xterm :=
+  match t with
+  | Some t' => if forallb str_xml (written_strings t') then WOk (xml_term_elem t') else WRefuse
+  | None => WFail
+  end.
+
+Definition xml_write_bind (kv : str * option term) : wres xbind :=
+  if str_xml (fst kv) then
+    match xml_write_term (snd kv) with
+    | WOk x => WOk (sax_quoteattr (fst kv), x)
+    | WRefuse => WRefuse
+    | WFail => WFail
+    end
+  else WRefuse.
+
+Definition xml_write_row (r : row) : wres (list xbind) := all_w (map xml_write_bind r).
+
+Definition xml_write_var (v : str) : wres str := if str_xml v then WOk (sax_quoteattr v) else WRefuse.
 
 Definition s_true := s2l "true".
 
-Definition xml_serialize (ask : option bool) (vars : list str) (rows : list row) : option xdoc :=
+Definition xml_serialize (ask : option bool) (vars : list str) (rows : list row) : wres xdoc :=
   match ask with
-  | Some b => Some (XAsk (sax_escape (if b then s_true else s_false)))
-  | None => match all_some (map xml_write_row rows) with
-            | Some rs => Some (XSel (map sax_quoteattr vars) rs)
-            | None => None
-            end
+  | Some b => WOk (XAsk (sax_escape (if b then s_true else s_false)))
+  | None =>
+      (* write_header first, then the results *)
+      match all_w (map xml_write_var vars) with
+      | WOk head => match all_w (map xml_write_row rows) with
+                    | WOk rs => WOk (XSel head rs)
+                    | WRefuse => WRefuse
+                    | WFail => WFail
+                    end
+      | WRefuse => WRefuse
+      | WFail => WFail
+      end
   end.
 
 (* the element after the XML parser: decoded text (None when empty) and attributes *)
@@ -387,7 +453,7 @@ Definition xml_parseTerm (p : pterm) : option term :=
   match pk p with
   | KLiteral =>
       let text := match p_text p with None => [] | Some t => t end in
-      match nonempty (p_dt p) with
+      match p_dt p with                          (* if element.get("datatype") is not None *)
       | Some d => py_Literal text (Some d) None
       | None => match nonempty (p_lang p) with
                 | Some l => py_Literal text None (Some l)
@@ -537,8 +603,8 @@ Fixpoint take_while (p : N -> bool) (s : str) : str * str :=
   | [] => ([], [])
   end.
 
-(* line ends of str.splitlines(), which codecs.StreamReader.readline uses; on a text
-   stream (io.StringIO) only LF ends a line *)
+(* line ends of str.splitlines(), which codecs.StreamReader.readline uses (the reader before
+   e84c9b4e on byte sources); on a text stream, and now always, only LF ends a line *)
 Definition is_break (c : N) : bool :=
   in_range 10 13 c || in_range 28 30 c || (c =? 133) || (c =? 8232) || (c =? 8233).
 
@@ -793,8 +859,10 @@ Fixpoint drop_crlf (s : str) : str :=
 Definition rstrip_crlf (s : str) : str := rev (drop_crlf (rev s)).
 
 (* TSVResultParser.parse *)
-Definition tsv_parse (bytes : bool) (doc : str) : obs :=
-  match split_lines bytes [] doc with
+(* since e84c9b4e: the whole source is read and decoded, lines = data.split(LF) with a last empty
+   piece dropped - which is [split_lines false]; the kind of source no longer matters *)
+Definition tsv_parse (doc : str) : obs :=
+  match split_lines false [] doc with
   | [] => OErr                                 (* HEADER cannot match "" *)
   | h :: lines =>
       let h' := rstrip_crlf h in               (* header.rstrip("\r\n"), since 9f983466 *)
@@ -839,10 +907,11 @@ Definition model_obs (c : case) : obs :=
   match c_fmt c with
   | FJson => json_parse (json_serialize (c_ask c) (c_vars c) (c_rows c))
   | FXml => match xml_serialize (c_ask c) (c_vars c) (c_rows c) with
-            | Some d => xml_parse d
-            | None => OErr
+            | WOk d => xml_parse d
+            | WRefuse => ORefused
+            | WFail => OErr
             end
-  | FTsv => tsv_parse (c_bytes c) (render_doc (c_style c) (c_vars c) (c_rows c))
+  | FTsv => tsv_parse (render_doc (c_style c) (c_vars c) (c_rows c))
   | FCsv => match c_ask c with
             | Some _ => OErr      (* "CSVSerializer can only serialize select query results" *)
             | None => OCells (csv_serialize (c_vars c) (c_rows c))
@@ -874,6 +943,32 @@ Fixpoint rows_ok (vars : list str) (rs : list row) (ps : list prow) : bool :=
   | _, _ => false
   end.
 
+(* every string of a term *)
+Definition term_strings (t : term) : list str :=
+  match t with
+  | IRI s => [s] | BNode s => [s]
+  | Lit lex dt lang => lex :: (match dt with Some d => [d] | None => [] end)
+                           ++ (match lang with Some l => [l] | None => [] end)
+  end.
+
+(* SPARQL XML is XML 1.0: a result is expressible when every variable name and every string of every
+   bound term consists of characters of the Char production.  The round-trip clause constrains what
+   can be written; for the rest the serialiser must refuse (ResultException), not write a document
+   that cannot be read or that reads as something else. *)
+Definition xml_expressible (c : case) : bool :=
+  forallb str_xml (c_vars c)
+  && forallb (fun r => forallb (fun kv => str_xml (fst kv)
+                                          && match snd kv with
+                                             | Some t => forallb str_xml (term_strings t)
+                                             | None => true
+                                             end) r) (c_rows c).
+
+Definition spec_select (c : case) (o : obs) : bool :=
+  match o with
+  | OSel vs ps => list_eqb str_eqb vs (c_vars c) && rows_ok (c_vars c) (c_rows c) ps
+  | _ => false
+  end.
+
 Definition spec_ok (c : case) (o : obs) : bool :=
   match c_fmt c with
   | FCsv =>
@@ -885,15 +980,17 @@ Definition spec_ok (c : case) (o : obs) : bool :=
   | _ =>
       match c_ask c with
       | Some b => match o with OAsk b' => Bool.eqb b b' | _ => false end
-      | None => match o with
-                | OSel vs ps => list_eqb str_eqb vs (c_vars c) && rows_ok (c_vars c) (c_rows c) ps
-                | _ => false
-                end
+      | None =>
+          match c_fmt c with
+          | FXml => if xml_expressible c then spec_select c o
+                    else match o with ORefused => true | _ => false end
+          | _ => spec_select c o
+          end
       end
   end.
 
 (* ------------------------------------------------------------------ *)
-(* Well-formed cases and the trigger regions of the known findings     *)
+(* Well-formed cases                                                   *)
 
 Fixpoint nodup_str (l : list str) : bool :=
   match l with [] => true | x :: r => negb (memb str_eqb x r) && nodup_str r end.
@@ -938,41 +1035,6 @@ Definition wf (c : case) : bool :=
      | FCsv => match c_ask c with Some _ => false | None => true end
      end.
 
-(* every string the XML writer emits for the case *)
-Definition term_strings (t : term) : list str :=
-  match t with
-  | IRI s => [s] | BNode s => [s]
-  | Lit lex dt lang => lex :: (match dt with Some d => [d] | None => [] end)
-                           ++ (match lang with Some l => [l] | None => [] end)
-  end.
-Definition term_text (t : term) : str :=
-  match t with IRI s => s | BNode s => s | Lit lex _ _ => lex end.
-
-Definition case_terms (c : case) : list term := flat_map row_terms (c_rows c).
-
-(* a literal whose datatype is the empty IRI (the writer and the reader test the datatype by truthiness) *)
-Definition empty_iri (t : term) : bool :=
-  match t with
-  | Lit _ (Some []) _ => true
-  | _ => false
-  end.
-
-Definition all_unbound (vars : list str) (r : row) : bool :=
-  forallb (fun v => match cell v r with None => true | Some _ => false end) vars.
-
+(* no finding is open: every trigger region of the earlier revisions of this file (F11a-F11h) has
+   been repaired in the code, see notes/C16.md *)
 Definition raw_break (c : N) : bool := is_break c && negb (c =? 10).
-
-(* 0 = none; 2 = F11b, 3 = F11c, 4 = F11d, 5 = F11e *)
-Definition kf (c : case) : N :=
-  match c_fmt c, c_ask c with
-  | FXml, None =>
-      if negb (forallb (forallb is_xml_char)
-                 (c_vars c ++ flat_map keys (c_rows c) ++ flat_map term_strings (case_terms c))) then 2
-      else if existsb (fun t => memb N.eqb 13 (term_text t)) (case_terms c) then 3
-      else if existsb empty_iri (case_terms c) then 4
-      else 0
-  | FTsv, _ =>
-      if c_bytes c && existsb raw_break (render_doc (c_style c) (c_vars c) (c_rows c)) then 5
-      else 0
-  | _, _ => 0
-  end.
